@@ -96,15 +96,26 @@ class Gen:
         r = self.r
         return r.choice([0, 1, 1000, r.randint(1, 10 ** 15), r.randint(1, 3) * AERGO])
 
+    def _ck(self, cid, k):
+        if [cid, k] not in self.c["ckeys"]:
+            self.c["ckeys"].append([cid, k])
+        return True
+
     def vm_script(self, frm, cid_or_to):
         r = self.r
         k = r.random()
         if k < 0.15:
             return {"res": "rt", "fee": str(r.choice([0, 10 ** 12, 10 ** 15])), "transfers": [], "writes": []}
-        if k < 0.2:
+        if k < 0.18:
             return {"res": "sys", "fee": "0", "transfers": [], "writes": []}
-        if k < 0.23:
-            return {"res": "ok", "fee": "-5", "transfers": [], "writes": []}
+        if k < 0.21:
+            return {"res": "sys", "fee": "0", "transfers": [[str(r.choice(self.users + [30])), "1"]],
+                    "writes": [[1, 9]] if self._ck(cid_or_to, 1) else []}
+        if k < 0.25:
+            # negative execution fee: Execute returns ErrVmStart (non-runtime) AFTER the VM has already
+            # credited third parties / written storage -> only the executor's rollback removes them
+            return {"res": "ok", "fee": "-5", "transfers": [[str(r.choice(self.users + [30])), str(r.choice([1, 5000]))]],
+                    "writes": [[1, 7]] if self._ck(cid_or_to, 1) else []}
         trs = []
         for _ in range(r.choice([0, 0, 1, 1, 2])):
             to = r.choice(self.users + [frm, cid_or_to, 30])
